@@ -101,6 +101,20 @@ def run(ctx):
             defs, cfg = RC.gen_groupdefs(rng, deep=(it % 7 == 0))
             cli, toks = RC.gen_options(rng, defs, refs)
             one(refs, defs, cfg, cli, toks, 1 if rng.random() < 0.2 else 0)
+        # nested refgroups: a group used as @G / --refgroup G must match exactly its members, i.e. its own rules AND those of
+        # every ancestor, also when an intermediate group is rule-less or implicit
+        for it in range(40 if quick else 600):
+            defs = RC.nested_defs(rng)
+            cfg = RC.defs_to_cfg(defs)
+            refs = sorted(RC.NESTED_REFS)
+            syms = sorted({s0 for s0, _ in defs} | {".".join(s0.split(".")[:k]) for s0, _ in defs for k in range(1, s0.count(".") + 1)})
+            g = rng.choice([s0 for s0 in syms if s0.count(".") >= 1] or syms)
+            forms = [(["--include", "@" + g], ["+g:" + vlib.hx(g.encode())]), (["--refgroup", g], ["+g:" + vlib.hx(g.encode())]),
+                     (["--exclude", "@" + g], ["-g:" + vlib.hx(g.encode())]),
+                     (["--include", "refs/tags", "--exclude", "refs/tags/foo", "--include=@" + g],
+                      ["+p:" + vlib.hx(b"refs/tags"), "-p:" + vlib.hx(b"refs/tags/foo"), "+g:" + vlib.hx(g.encode())])]
+            for cli, toks in forms:
+                one(refs, defs, cfg, cli, toks, 0)
         # exhaustive short sequences over a fixed pool
         pool = [(["--branches"], "+p:" + vlib.hx(b"refs/heads")), (["--no-tags"], "-p:" + vlib.hx(b"refs/tags")),
                 (["--include", "refs/heads/feature"], "+p:" + vlib.hx(b"refs/heads/feature")),
